@@ -16,11 +16,11 @@ pub enum HavokAnimationBlendHint {
 }
 
 impl HavokAnimationBlendHint {
-    pub fn from_raw(raw: u8) -> Self {
+    pub fn from_raw(raw: u8) -> Option<Self> {
         match raw {
-            0 => Self::Normal,
-            1 => Self::Additive,
-            _ => panic!(),
+            0 => Some(Self::Normal),
+            1 => Some(Self::Additive),
+            _ => None,
         }
     }
 }
@@ -32,30 +32,33 @@ pub struct HavokAnimationBinding {
 }
 
 impl HavokAnimationBinding {
-    pub fn new(object: Arc<RefCell<HavokObject>>) -> Self {
+    /// `None` when the object does not have the members of a `hkaAnimationBinding` or its
+    /// animation is of a kind that is not implemented.
+    pub fn new(object: Arc<RefCell<HavokObject>>) -> Option<Self> {
         let root = object.borrow();
 
         let raw_transform_track_to_bone_indices =
-            root.get("transformTrackToBoneIndices").as_array();
+            root.get("transformTrackToBoneIndices")?.as_array()?;
         let transform_track_to_bone_indices = raw_transform_track_to_bone_indices
             .iter()
-            .map(|x| x.as_int() as u16)
-            .collect::<Vec<_>>();
+            .map(|x| Some(x.as_int()? as u16))
+            .collect::<Option<Vec<_>>>()?;
 
-        let blend_hint = HavokAnimationBlendHint::from_raw(root.get("blendHint").as_int() as u8);
+        let blend_hint =
+            HavokAnimationBlendHint::from_raw(root.get("blendHint")?.as_int()? as u8)?;
 
-        let raw_animation = root.get("animation").as_object();
+        let raw_animation = root.get("animation")?.as_object()?;
         let animation = match &*raw_animation.borrow().object_type.name {
             "hkaSplineCompressedAnimation" => {
-                Box::new(HavokSplineCompressedAnimation::new(raw_animation.clone()))
+                Box::new(HavokSplineCompressedAnimation::new(raw_animation.clone())?)
             }
-            _ => panic!(),
+            _ => return None,
         };
 
-        Self {
+        Some(Self {
             transform_track_to_bone_indices,
             blend_hint,
             animation,
-        }
+        })
     }
 }
